@@ -77,6 +77,8 @@ impl Tape {
                 }
             }
         };
+        // a generator that rejects and redraws would never end on a replayed (zero-padded) tape
+        assert!(self.rec.len() < 4_000_000, "more than 4 000 000 draws in one run: a generator is looping on the tape");
         self.rec.push(v);
         v as usize
     }
